@@ -18,7 +18,7 @@ PROP = 'C06'
 LEVEL = 'exploration'
 RULE = ('family circuits x all {0,1,R,F} stimuli x delay plans (zero delay on fork inputs) x capacities x configuration lattice: {c_reuse} x {strip_forks} x {WaveSim, WaveSimCuda under the '
         'repository\'s own mock launcher} x allocated lanes {n, n+1, n+7, 2n} x lane permutations (reversal, rotations, adjacent swap) x c_prop(sims=k) for k in 1..n (quick: 6 values) x '
-        'delay dataset selection (mode 0 with every seed, mode 1 with per-lane datasets) x a_ctrl; LogicSim: {c_reuse} x {strip_forks} x m in {2,4,8} on all stimuli; '
+        'delay dataset selection (mode 0 with every seed, mode 1 with per-lane datasets) x a_ctrl; LogicSim: {c_reuse} x {strip_forks} x m in {2,4,8} on all stimuli, also on bench-parsed netlists whose output ports are read inside the circuit; '
         'oracle: bit-identical port results (and full signal memory where both runs keep it); distinct_nontrivial = distinct (case, configuration, result) signatures')
 ASSUMPTIONS = ['strip_forks comparisons use zero delay on lines feeding forks and uniform capacities (the statement\'s parenthesis)',
                'delay selection mode 2 (pseudo-random per-op choice) is outside the statement and not compared',
@@ -40,6 +40,14 @@ def run_task(task):
             if tier == 'quick' and idx % 9 != seed % 9: continue
             for m in (2, 4, 8):
                 case = {'kind': 'logic', 'nl': nl.to_json(), 'style': (idx // 9 if tier == 'quick' else idx) % len(STYLES), 'm': m}
+                try: logic_case(res, case)
+                except Exception as ex:
+                    res.violation(f'C06/logic/{common.h64(case["nl"]):016x}/exception-{type(ex).__name__}', case, traceback.format_exc()[-1500:])
+        from checks.c07 import bench_cut_family
+        for idx, text in enumerate(F.take_slice(bench_cut_family(), task[2], task[1])):
+            if tier == 'quick' and idx % 6 != seed % 6: continue
+            for m in (2, 4, 8):
+                case = {'kind': 'logic', 'nl': text, 'bench': True, 'style': 0, 'm': m}
                 try: logic_case(res, case)
                 except Exception as ex:
                     res.violation(f'C06/logic/{common.h64(case["nl"]):016x}/exception-{type(ex).__name__}', case, traceback.format_exc()[-1500:])
@@ -76,12 +84,23 @@ def replay(case):
 
 def logic_case(res, case):
     from kyupy.logic_sim import LogicSim
-    nl = NL.from_json(case['nl'])
     m = case['m']
-    b = build(nl, STYLES[case['style']])
-    c = b.circuit
-    ipos, opos, spos = b.s_pos()
-    nv = nl.n_in + len(nl.states)
+    if case.get('bench'):
+        # bench text with output ports that are read inside the circuit: the port's assigned value feeds the readers, the port captures
+        # the computed value; every port or state element with readers is a source.  No reference needed: configurations are compared.
+        from kyupy import bench
+        nl = case['nl']
+        c = bench.parse(nl)
+        ipos = [i for i, x in enumerate(c.s_nodes) if len(x.outs) > 0]
+        opos, spos = [i for i, x in enumerate(c.s_nodes) if len(x.ins) > 0], []
+        nv = len(ipos)
+        res.count('logic_bench_cut_ports')
+    else:
+        nl = NL.from_json(case['nl'])
+        b = build(nl, STYLES[case['style']])
+        c = b.circuit
+        ipos, opos, spos = b.s_pos()
+        nv = nl.n_in + len(nl.states)
     vals = code_lanes(nv, m)
     if m == 2: vals = [v * 3 for v in vals]
     n = m ** nv
@@ -340,7 +359,7 @@ def wave_case(res, case):
 
 
 def finish(agg, tier):
-    need = ['cfg_opt', 'cfg_alloc', 'cfg_perm', 'cfg_sims', 'cfg_dataset', 'cfg_dataset_mixed', 'cfg_twoobjects', 'cfg_twoprop', 'cfg_decimal_delays', 'logic_two_objects', 'cfg_abuf', 'cfg_reuse', 'logic_cases']
+    need = ['cfg_opt', 'cfg_alloc', 'cfg_perm', 'cfg_sims', 'cfg_dataset', 'cfg_dataset_mixed', 'cfg_twoobjects', 'cfg_twoprop', 'cfg_decimal_delays', 'logic_two_objects', 'cfg_abuf', 'cfg_reuse', 'logic_cases', 'logic_bench_cut_ports']
     missing = [k for k in need if not agg.counters.get(k)]
     if missing: raise common.HarnessError(f'vacuity guard: {missing} zero')
     return {}
